@@ -5,7 +5,7 @@
    answer-propagation mechanics are NOT modelled; that they refine this machine
    is tied only by sampled schedules (harness/props/C03.py). *)
 From Coq Require Import List Arith Bool QArith.
-From PL.C03 Require Import ModelTabling ProofsTabling.
+From PL.C03 Require Import ModelTabling ProofsTabling ProofsTermination.
 Import ListNotations.
 Local Close Scope Q_scope.
 Local Open Scope nat_scope.
@@ -76,10 +76,85 @@ Theorem C03_machine_never_blocks : forall (P : program) (k : nat) (st : state), 
 Proof. exact step_progress. Qed.
 Print Assumptions C03_machine_never_blocks.
 
-(* Not proved (stated here so that the gap stays visible):
-     C03_termination_partial : forall P Q, exists N, forall s, N <= length s -> terminated (run P s (init Q))
-   every theorem above is conditional on termination of the two runs; the
-   Examples below show the hypotheses are satisfiable with different schedules. *)
+(* ---- Termination under EVERY schedule (ProofsTermination.v).
+   measure P st = (sum over the pending items of: Call 1, Res 1, Cl c 2+|body c|)
+                + (sum of 2+|body c| over the clause occurrences of P whose head is not completed);
+   bound P Q    = |Q| + sum over c in P of (2+|body c|)  =  |Q| + 2|P| + number of body literals.
+   Call a is created once per goal, Cl c / Res c once per OCCURRENCE of c in the
+   program list (a repeated clause is scheduled twice: Example C03_ex_duplicate_clause),
+   which is why the measure sums over occurrences and needs no NoDup hypothesis. *)
+
+(* one step on a non-empty worklist strictly decreases the measure, whatever
+   item the schedule picks and from any state whatsoever *)
+Theorem C03_step_decreases : forall (P : program) (k : nat) (st : state), wl st <> [] ->
+  measure P (step P k st) + 1 <= measure P st.
+Proof. exact step_decreases. Qed.
+Print Assumptions C03_step_decreases.
+
+Theorem C03_bound_explicit : forall (P : program) (Q : list atom),
+  bound P Q = length Q + (2 * length P + list_sum (map (fun c => length (body c)) P)).
+Proof. exact (fun P Q => f_equal (Nat.add (length Q)) (program_size_explicit P)). Qed.
+Print Assumptions C03_bound_explicit.
+
+(* from any state: a schedule at least as long as the measure empties the worklist *)
+Theorem C03_termination_from_any_state : forall (P : program) (s : schedule) (st : state),
+  measure P st <= length s -> terminated (run P s st).
+Proof. exact run_terminates_from. Qed.
+Print Assumptions C03_termination_from_any_state.
+
+(* every schedule of length >= bound P Q terminates from the initial state *)
+Theorem C03_termination_bound : forall (P : program) (Q : list atom) (s : schedule),
+  bound P Q <= length s -> terminated (run P s (init Q)).
+Proof. exact run_terminates. Qed.
+Print Assumptions C03_termination_bound.
+
+(* the statement that used to be listed here as not proved *)
+Theorem C03_termination : forall (P : program) (Q : list atom),
+  exists N, forall s : schedule, N <= length s -> terminated (run P s (init Q)).
+Proof. exact termination. Qed.
+Print Assumptions C03_termination.
+
+(* beyond the bound the schedule no longer matters at all *)
+Theorem C03_run_stable_beyond_bound : forall (P : program) (Q : list atom) (s1 s2 : schedule),
+  bound P Q <= length s1 -> run P (s1 ++ s2) (init Q) = run P s1 (init Q).
+Proof. exact run_stable_beyond_bound. Qed.
+Print Assumptions C03_run_stable_beyond_bound.
+
+(* ---- the theorems above without termination hypotheses: ANY two schedules
+   that are long enough (the conditional versions are kept above) *)
+Theorem C03_schedule_independent_total : forall (P : program) (Q : list atom) (s1 s2 : schedule),
+  bound P Q <= length s1 -> bound P Q <= length s2 ->
+  (forall a, In a (goals (run P s1 (init Q))) <-> In a (goals (run P s2 (init Q)))) /\
+  (forall c, In c (edges (run P s1 (init Q))) <-> In c (edges (run P s2 (init Q)))).
+Proof. exact schedule_independent_total. Qed.
+Print Assumptions C03_schedule_independent_total.
+
+Theorem C03_result_is_relevant_subprogram_total : forall (P : program) (Q : list atom) (s : schedule),
+  bound P Q <= length s ->
+  (forall a, In a (goals (run P s (init Q))) <-> reach P Q a) /\
+  (forall c, In c (edges (run P s (init Q))) <-> (In c P /\ reach P Q (head c))).
+Proof. exact result_is_relevant_subprogram_total. Qed.
+Print Assumptions C03_result_is_relevant_subprogram_total.
+
+Theorem C03_same_values_total : forall (P : program) (Q : list atom) (s1 s2 : schedule),
+  bound P Q <= length s1 -> bound P Q <= length s2 ->
+  forall U n m (w : interp) (a : atom),
+    wf_value U n m (edges (run P s1 (init Q))) w a = wf_value U n m (edges (run P s2 (init Q))) w a.
+Proof. exact same_values_total. Qed.
+Print Assumptions C03_same_values_total.
+
+Theorem C03_same_probabilities_total : forall (P : program) (Q : list atom) (s1 s2 : schedule),
+  bound P Q <= length s1 -> bound P Q <= length s2 ->
+  forall U n m (W : list (interp * QArith_base.Q)) (q : atom),
+    prob U n m (edges (run P s1 (init Q))) W q = prob U n m (edges (run P s2 (init Q))) W q.
+Proof. exact same_probabilities_total. Qed.
+Print Assumptions C03_same_probabilities_total.
+
+Theorem C03_error_schedule_free_total : forall (P : program) (Q : list atom) (s1 s2 : schedule),
+  bound P Q <= length s1 -> bound P Q <= length s2 ->
+  (has_neg_cycle (in_list (edges (run P s1 (init Q)))) <-> has_neg_cycle (in_list (edges (run P s2 (init Q))))).
+Proof. exact error_schedule_free_total. Qed.
+Print Assumptions C03_error_schedule_free_total.
 
 (* ---- non-vacuity: recursion (1 <-> 2), negation (0 :- 1, not 4), an irrelevant clause (5) *)
 Definition exP : program :=
@@ -117,3 +192,21 @@ Example C03_ex_negative_loop :
   map (wf_value [0;1] 4 4 (edges (run [mkClause 0 [Neg 1]; mkClause 1 [Neg 0]] ex_s1 (init [0]))) (fun _ => false)) [0;1]
   = [None; None].
 Proof. vm_compute. reflexivity. Qed.
+
+(* ---- termination: the bound of the example program, attained exactly by a
+   chain program, and a repeated clause being scheduled once per occurrence *)
+Example C03_ex_bound : bound exP exQ = 21 /\ length ex_s1 = 40 /\ length ex_s2 = 40.
+Proof. vm_compute. repeat split; reflexivity. Qed.
+
+Example C03_ex_bound_tight :
+  let P := [mkClause 0 [Pos 1]; mkClause 1 []] in
+  bound P [0] = 6 /\
+  terminatedb (run P (repeat 0 5) (init [0])) = false /\
+  terminatedb (run P (repeat 0 6) (init [0])) = true.
+Proof. exact bound_is_tight. Qed.
+
+Example C03_ex_duplicate_clause :
+  let c := mkClause 0 [] in
+  edges (run [c; c] (repeat 0 5) (init [0])) = [c; c] /\
+  terminated (run [c; c] (repeat 0 5) (init [0])) /\ bound [c; c] [0] = 5.
+Proof. exact dup_clause_twice. Qed.
